@@ -443,7 +443,8 @@ pub fn run(started: Instant) -> i32 {
         let evil_cfg = Cfg::lvl(if cfg.layers.compressed() { L4::Compress } else { L4::None }, 5);
         let evil = guard(|| prog::build(&evil_p, &evil_cfg)).ok().and_then(|r| r.ok()).map(|x| x.0).unwrap_or_default();
         let (Ok(Ok((a, _))), Ok(Ok((s, _)))) = (a, s) else {
-            rep0.notes.push(format!("base {bi} could not be built (see C01)"));
+            rep0.evaluations += 1;
+            rep0.violate(Violation { sig: json!({"kind": "subject_archive_cannot_be_built"}), detail: format!("base {bi}: a valid writer program gives no archive; an explorer that drops such inputs would pass vacuously"), replay: json!({"base": bi}), weight: 0 });
             origs.push(BTreeMap::new());
             continue;
         };
